@@ -395,6 +395,37 @@ func TestVerifBoundedLifecycle(t *testing.T) {
 			lcFail("refuse.sent", "a refused request reached the node (%s)", node.fail)
 			return
 		}
+		// ---- optional members of the suffix data (entity type, anchor origin) survive the anchored form:
+		// its bytes are the canonical request, and re-parsing them gives the same suffix
+		for _, tc := range []struct {
+			typ string
+			ao  interface{}
+		}{{"", nil}, {"did-entity-type", nil}, {"", "https://anchor.example/orb"}, {"did-entity-type", "https://anchor.example/orb"}, {"t", []interface{}{"a", "b"}}} {
+			pt, _ := patch.NewAddServiceEndpointsPatch(`[{"id":"sv","type":"t","serviceEndpoint":"https://e.example"}]`)
+			creq, err := client.NewCreateRequest(&client.CreateRequestInfo{Patches: []patch.Patch{pt}, RecoveryCommitment: lcCommit(r0), UpdateCommitment: lcCommit(u0),
+				AnchorOrigin: tc.ao, Type: tc.typ, MultihashCode: 18})
+			cases++
+			if err != nil {
+				lcFail("builder.create", "entity type %q, anchor origin %v: %v", tc.typ, tc.ao, err)
+				return
+			}
+			mop, err := node.parser.ParseOperation(lcNS, creq, false)
+			if err != nil {
+				lcFail("builder.accepted", "create request with entity type %q, anchor origin %v refused: %v", tc.typ, tc.ao, err)
+				return
+			}
+			anchored, err := opmodel.GetAnchoredOperation(mop)
+			if err != nil {
+				lcFail("anchored.create", "anchored form (entity type %q): %v", tc.typ, err)
+				return
+			}
+			canon, _ := canonicalizer.MarshalCanonical(json.RawMessage(creq))
+			again, err2 := node.parser.ParseOperation(lcNS, anchored.OperationRequest, true)
+			if string(anchored.OperationRequest) != string(canon) || err2 != nil || again.UniqueSuffix != mop.UniqueSuffix || anchored.UniqueSuffix != mop.UniqueSuffix {
+				lcFail("anchored.create", "anchored form of a create request with entity type %q / anchor origin %v is not the canonical request (%s vs %s, err %v)", tc.typ, tc.ao, anchored.OperationRequest, canon, err2)
+				return
+			}
+		}
 		// ---- anchor origins that are not strings reach the parsed operation unchanged (builders directly)
 		for _, ao := range []interface{}{[]interface{}{"origin.one", "origin.two"}, map[string]interface{}{"o": "x"}, "plain"} {
 			pt, _ := patch.NewAddServiceEndpointsPatch(`[{"id":"sv","type":"t","serviceEndpoint":"https://e.example"}]`)
